@@ -2,6 +2,11 @@
 from . import plans as P
 from . import oracles as O
 from . import exec_parser as XP
+from . import profiles_peer as PP
+from . import exec_reconnect as XR
+from . import profiles_hostile as PH
+from . import exec_routing as XRT
+from . import exec_rx as XRX
 
 # profile name -> (generator function, options)
 PROFILES = {}
@@ -37,6 +42,21 @@ profile('cancel-sweep', P.gen_core, sweep='cancel', max_points=400, cancels=0.0,
         kinds=[(3, 'rr'), (3, 'stream'), (3, 'channel')], n_interactions=[(2, 1), (2, 2), (2, 3)], max_count=8,
         stall_bias=0.15, stall_faults=0.0)
 
+profile('lease-req', PP.gen_lease_requester)
+profile('lease-resp', PP.gen_lease_responder)
+profile('keepalive', PP.gen_keepalive)
+profile('setup-client', PP.gen_setup_client)
+profile('setup-server', PP.gen_setup_server)
+
+profile('reconnect', XR.gen_reconnect)
+
+profile('hostile', PH.gen_hostile)
+profile('buggify', PH.gen_buggify)
+
+profile('routing', XRT.gen_routing)
+
+profile('rx', XRX.gen_rx)
+
 # property -> {'profiles': [(name, quick_runs, thorough_runs)], 'oracles': [...]}
 CHECKS = {
     'C01': {'profiles': [('core', 3000, 120000), ('core-msg', 1000, 40000), ('core-frag', 1500, 60000),
@@ -59,13 +79,26 @@ CHECKS = {
             'oracles': [O.oracle_c09], 'level': 'exploration'},
     'C11': {'profiles': [('cut', 4000, 150000), ('cut-sweep', 48, 2000)],
             'oracles': [O.oracle_c11], 'level': 'fault_enumeration'},
+    'C14': {'profiles': [('lease-req', 12000, 400000), ('lease-resp', 3000, 100000)],
+            'oracles': [PP.oracle_c14], 'level': 'exploration'},
+    'C15': {'profiles': [('keepalive', 8000, 300000)], 'oracles': [PP.oracle_c15], 'level': 'exploration'},
+    'C16': {'profiles': [('setup-client', 8000, 300000), ('setup-server', 4000, 150000)],
+            'oracles': [PP.oracle_c16], 'level': 'exploration'},
+    'C17': {'profiles': [('reconnect', 6000, 200000)], 'oracles': [XR.oracle_c17], 'level': 'exploration'},
+    'C12': {'profiles': [('hostile', 12000, 400000), ('buggify', 3000, 100000)],
+            'oracles': {'hostile': [PH.oracle_c12_hostile], 'buggify': [PH.oracle_c12_buggify]}, 'level': 'exploration'},
+    'C19': {'profiles': [('routing', 10000, 300000)], 'oracles': [XRT.oracle_c19], 'level': 'exploration'},
+    'C20': {'profiles': [('rx', 8000, 250000)], 'oracles': [XRX.oracle_c20], 'level': 'exploration'},
     'C10': {'profiles': [('core-ends', 4000, 160000), ('core', 1500, 60000), ('core-frag', 1000, 40000)],
             'oracles': [O.oracle_c10], 'level': 'exploration'},
 }
 
 
 def oracles_for(prop, plan):
-    return CHECKS[prop]['oracles']
+    o = CHECKS[prop]['oracles']
+    if isinstance(o, dict):
+        return o[plan.get('profile')]
+    return o
 
 
 def make_plan(prop, profile_name, base_seed, index, extra=None):
@@ -217,4 +250,43 @@ MANIFEST_TEXT.update({
                     'swarm. Oracle after the settle window: nothing requested before the loss is left pending, producers '
                     'cancelled, on_close exactly once per endpoint, no frame queued or written afterwards, tasks finished.',
             'note': 'ByteLink cuts only (anchor transports/tcp.py); interactions started after the fault fired are not judged'},
+})
+
+_PEER = ('one real endpoint against a scripted RawPeer that speaks through the harness\'s own codec; pure discrete-event time '
+         '(eps = 0), instants on an integer-millisecond grid so that boundaries (exact expiry, exact period) are hit')
+MANIFEST_TEXT.update({
+    'C12': {'text': 'exploration: (a) real server / client against a hostile RawPeer sending seeded sequences of random bytes, empty and '
+                    'short frames or messages, truncated frames, unknown types, frames for unknown / finished streams, orphan fragments, '
+                    'out-of-place RESUME/LEASE, interleaved with valid requests and followed by a probe request; (b) buggify: seeded subsets '
+                    'of handler entry points and publisher methods raise in real client<->server runs. Oracle: valid and probe requests '
+                    'answered correctly, ERROR only on offending streams, tasks alive, connection not taken down, parser termination guard.',
+            'note': 'only correctly delimited junk (an over-long length prefix legitimately makes a byte-stream parser wait)'},
+    'C14': {'text': 'exploration: ' + _PEER + '. Requester: LEASE frames (n 0..max, ttl 1 ms..max) interleaved with requests of all four types '
+                    'incl. exactly at reception and at expiry, queue sizes 0/1/3; LeaseModel oracle (no request without lease, <= n, none at or '
+                    'after expiry, FIFO release, once, rejected only when the queue is full, released on arrival). Responder: scripted lease '
+                    'publisher; LEASE frames == published leases (count, exact milliseconds).',
+            'note': 'model computes expiry in integer microseconds exactly like the clock seam'},
+    'C15': {'text': 'exploration: ' + _PEER + '. Periods 10 ms..10 min, lifetimes below/equal/above the period, server that always echoes, '
+                    'never, stops or starts at an instant, or delays echoes; injected KEEPALIVEs with and without the respond flag to both '
+                    'roles. Oracle: echo 1:1 with equal data, period exact, first within one period, no false timeout, detection within two lifetimes.',
+            'note': 'nothing asserted for silences between one and two lifetimes'},
+    'C16': {'text': 'exploration: ' + _PEER + '. Client configurations (sub-second periods, str/bytes/well-known encodings, payload, lease) with '
+                    'connect() returning at once / after hops / after a delay and requests issued meanwhile; servers receiving SETUP variants '
+                    'and RESUME. Oracle: SETUP first and once, fields == configuration; on_setup once / matching ERROR code on stream 0.',
+            'note': 'periods that are not whole milliseconds are not judged (rounding unspecified)'},
+    'C17': {'text': 'exploration: real client whose transport provider hands out fresh simulated links to fresh real servers; 1-4 consecutive '
+                    'connection endings by server EOF, reset, keepalive timeout (silent server) or reconnect() while healthy, requested from '
+                    'on_close, on_keepalive_timeout or the script. Oracle: old transport closed, pending failed, one new transport per request, '
+                    'fresh SETUP first, ids from 1, keepalives resume, probe served, on_close once per ended connection.',
+            'note': 'reconnect requests are spaced so that each yields exactly one new transport'},
+    'C19': {'text': 'exploration (narrow claim): PRNG route tables on the library\'s RoutingRequestHandler with recording coroutines, requests of '
+                    'all five types with known / other-type / unknown / empty / missing routes, route entry at any position of the composite '
+                    'metadata, no / rejected / accepted authentication, verifier that suspends; 2-6 concurrently. Oracle: reference dispatch '
+                    'table; errors on that request alone; parameters as annotated; no handler for unauthenticated requests.',
+            'note': 'the input x program quantifier is sampled; composite metadata built with the library\'s own extension codecs (C18 not claimed)'},
+    'C20': {'text': 'exploration: interactions driven through RxRSocket / ReactiveXClient and the handler adapters (both Rx versions) with '
+                    'plain and back-pressure-aware observables, request limits 1..max, errors, disposal moments. Oracle: observers see exactly '
+                    'the scripted elements/terminal events, request-n <= limit, handler elements <= credit, feedback subject == credited '
+                    'amounts, dispose -> one CANCEL (or none when the terminal frame raced), delegate reached for fnf / metadata-push / setup.',
+            'note': 'equivalence with the core API is asserted against the scripted expectation rather than by a second core-API execution'},
 })
